@@ -184,7 +184,7 @@ func runC04(c *core.Ctx) {
 		m := gen.TWCCModelGen(r, gen.Opts{NoBig: !r.Chance(1, 100)})
 		want := modelProjection(m)
 		for kk := 0; kk < 4; kk++ {
-			chunks := m.Chunks(r, gen.ChunkOpts{OvershootRun: true})
+			chunks := m.Chunks(r, gen.ChunkOpts{OvershootRun: true, ZeroRuns: r.Chance(1, 3)})
 			e, err := ref.Encode(m.Value(chunks), ref.RFC)
 			if err != nil {
 				cs.C.Res.HarnessErrors = append(cs.C.Res.HarnessErrors, "reference cannot encode generated TWCC: "+err.Error())
